@@ -306,7 +306,7 @@ impl Operator for Tile {
         let input = in_place.into_single();
         let repeats: NdTensorView<i32, 1> = ctx.inputs().require_as(1)?;
 
-        if repeats.iter().all(|n| *n == 1) {
+        if repeats.size(0) == input.ndim() && repeats.iter().all(|n| *n == 1) {
             return input.into_op_result();
         }
 
